@@ -258,6 +258,27 @@ def search(spec):
                         return (inputs, {"law": None}, f"{bad}: A={A!r} B={B!r}"), n
                 except Exception:
                     continue
+        # schemas of different classes (incl. the ones that accept anything): never equal, from either side
+        exprs = ["schema.any", "schema.int", "schema.str", "schema.none", "schema.list", "schema.dict", "schema.bool",
+                 "schema.any(schema.any, schema.none)", "schema.any(schema.int)", "schema.list(schema.any)",
+                 "schema.dict({'a': schema.any})", "schema.float", "schema.bytes", "schema.any(schema.int, schema.str)"]
+        built2 = [(e, N.build({"k": "expr", "src": e})) for e in exprs]
+        probe = [None, 0, 1, "a", [], {}, [1], {"a": 1}, 1.5, b"", True]
+        for (ea, A), (eb, B) in it.product(built2, repeat=2):
+            n += 1
+            try:
+                bad = None
+                if (A == B) != (B == A):
+                    bad = f"{ea} == {eb} is {A == B} but {eb} == {ea} is {B == A}"
+                elif (A != B) == (A == B):
+                    bad = f"!= is not the negation of == for {ea}, {eb}"
+                elif A == B and any(N.validate(A, v).has_errors() != N.validate(B, v).has_errors() for v in probe):
+                    bad = f"{ea} == {eb} although they give different verdicts"
+                if bad:
+                    inputs = {"A": {"k": "expr", "src": ea}, "B": {"k": "expr", "src": eb}, "C": {"k": "expr", "src": eb}}
+                    return (inputs, {"law": None}, bad), n
+            except Exception:
+                continue
         return None, n
     if oracle in ("C10", "C11") and "Schema." in q:
         cls, method = q.split(".", 1)
